@@ -4,6 +4,8 @@
 // built around strptime / settime / timestamp() / stop / failing conversions,
 // compiled by the real compiler and run on a real vm.VM line by line; the
 // event sequence a line triggers (the "line program" of coq/Lang/TimeReg.v);
+// dimensioned metrics (`counter d0 by a, b`: label sets created by dload,
+// removed by del or, from outside the VM, by Metric.RemoveDatum);
 // the time-library table the model needs; canonicalisation of wall-clock
 // values; and Coq printing of the cases (coq/Corr/TimeRun.v).
 package tmrun
@@ -18,6 +20,7 @@ import (
 	"time"
 
 	"github.com/google/mtail/internal/logline"
+	"github.com/google/mtail/internal/metrics"
 	"github.com/google/mtail/internal/metrics/datum"
 	"github.com/google/mtail/internal/runtime/code"
 	"github.com/google/mtail/internal/runtime/compiler"
@@ -67,6 +70,8 @@ const (
 	ArgNone = 0 // /^TAG$/
 	ArgStr  = 1 // /^TAG (.*)$/
 	ArgInt  = 2 // /^TAG (-?\d+)$/
+	ArgDim2 = 3 // /^TAG (\S*) (\S*)$/         two label values
+	ArgDim3 = 4 // /^TAG (\S*) (\S*) (\S+)$/   two label values and a payload
 )
 
 // Action kinds:
@@ -78,6 +83,13 @@ const (
 //	inc    M++
 //	conv   M = int($1)               (ArgStr: fails at run time on a non-number)
 //	stop   stop
+//
+// on a dimensioned metric M (`counter d* by a, b`, `gauge e* by a, b`), in a
+// statement whose pattern is ArgDim2 / ArgDim3:
+//
+//	dinc   M[$1][$2]++               dts    M[$1][$2] = timestamp()
+//	dset   M[$1][$2] = int($3)       (ArgDim3; the datum is looked up, and created, BEFORE int($3) can fail)
+//	ddel   del M[$1][$2]             dexp   del M[$1][$2] after 1h
 type Action struct {
 	K      string `json:"k"`
 	Layout string `json:"layout,omitempty"`
@@ -117,29 +129,59 @@ func (s Stmt) Pattern() string {
 		return "^" + s.Tag + " (.*)$"
 	case ArgInt:
 		return "^" + s.Tag + " (-?\\d+)$"
+	case ArgDim2:
+		return "^" + s.Tag + " (\\S*) (\\S*)$"
+	case ArgDim3:
+		return "^" + s.Tag + " (\\S*) (\\S*) (\\S+)$"
 	}
 	return "^" + s.Tag + "$"
 }
 
+// IsDim: the metric name is one of the dimensioned metrics (d* counters, e* gauges).
+func IsDim(name string) bool { return strings.HasPrefix(name, "d") || strings.HasPrefix(name, "e") }
+
+func isDimAct(k string) bool {
+	switch k {
+	case "dinc", "dset", "dts", "ddel", "dexp":
+		return true
+	}
+	return false
+}
+
 // Metrics lists the metric names used, gauges (g*, n*) first, in the order they
-// are declared, which is the order of code.Object.Metrics.
+// are declared, which is the order of code.Object.Metrics.  The dimensioned
+// metrics come last, so a scalar metric's index is its slot in the model.
 func (p Prog) Metrics() []string {
 	seen := map[string]bool{}
-	var gs, cs []string
+	var gs, cs, ds []string
 	for _, s := range p.Stmts {
 		for _, a := range append(append([]Action{}, s.Acts...), s.Else...) {
 			if a.M == "" || seen[a.M] {
 				continue
 			}
 			seen[a.M] = true
-			if a.K == "inc" {
+			switch {
+			case IsDim(a.M):
+				ds = append(ds, a.M)
+			case a.K == "inc":
 				cs = append(cs, a.M)
-			} else {
+			default:
 				gs = append(gs, a.M)
 			}
 		}
 	}
-	return append(gs, cs...)
+	return append(append(gs, cs...), ds...)
+}
+
+// Scalars is the number of metrics without keys (slots 0..Scalars-1).
+func (p Prog) Scalars() int {
+	n := 0
+	for _, m := range p.Metrics() {
+		if !IsDim(m) {
+			n++
+		}
+	}
+	return n
 }
 
 func (p Prog) Source() string {
@@ -153,9 +195,14 @@ func (p Prog) Source() string {
 		}
 	}
 	for _, m := range p.Metrics() {
-		if seenC[m] {
+		switch {
+		case IsDim(m) && m[0] == 'd':
+			fmt.Fprintf(&b, "counter %s by a, b\n", m)
+		case IsDim(m):
+			fmt.Fprintf(&b, "gauge %s by a, b\n", m)
+		case seenC[m]:
 			fmt.Fprintf(&b, "counter %s\n", m)
-		} else {
+		default:
 			fmt.Fprintf(&b, "gauge %s\n", m)
 		}
 	}
@@ -191,6 +238,16 @@ func (p Prog) Source() string {
 				fmt.Fprintf(&b, "%s%s = int($1)\n", ind, a.M)
 			case "stop":
 				b.WriteString(ind + "stop\n")
+			case "dinc":
+				fmt.Fprintf(&b, "%s%s[$1][$2]++\n", ind, a.M)
+			case "dset":
+				fmt.Fprintf(&b, "%s%s[$1][$2] = int($3)\n", ind, a.M)
+			case "dts":
+				fmt.Fprintf(&b, "%s%s[$1][$2] = timestamp()\n", ind, a.M)
+			case "ddel":
+				fmt.Fprintf(&b, "%sdel %s[$1][$2]\n", ind, a.M)
+			case "dexp":
+				fmt.Fprintf(&b, "%sdel %s[$1][$2] after 1h\n", ind, a.M)
 			}
 		}
 	}
@@ -220,7 +277,7 @@ func mtailStr(s string) string { return "\"" + s + "\"" } // generated strings c
 // ---- events ----
 
 type Event struct {
-	K      string   `json:"k"` // strp sett ts push set inc fail stop | match cap strptop
+	K      string   `json:"k"` // strp sett ts push set inc fail stop | match cap strptop | get del exp
 	Layout string   `json:"layout,omitempty"`
 	Value  string   `json:"value,omitempty"`
 	N      int64    `json:"n,omitempty"`
@@ -229,6 +286,10 @@ type Event struct {
 	Group  int      `json:"group,omitempty"`  // cap
 	Hit    bool     `json:"hit,omitempty"`    // match
 	Groups []string `json:"groups,omitempty"` // match
+	// a label set of a dimensioned metric (get del exp, and the set / inc that
+	// follow a get): M is then the slot Slots.Assign gives to (DM, Labels)
+	DM     string   `json:"dm,omitempty"`
+	Labels []string `json:"labels,omitempty"`
 }
 
 // Events is the sequence of time-relevant events the program performs on the
@@ -241,9 +302,35 @@ func (p Prog) Events(line string) []Event {
 	var evs []Event
 	// capRe: the table slot $1 / $xI refers to; arg, have: what the harness's own
 	// regexp evaluation on THIS line gives for it
-	emit := func(s Stmt, as []Action, capRe int, arg string, have bool) {
+	emit := func(s Stmt, as []Action, capRe int, groups []string, have bool) {
+		arg := ""
+		if len(groups) > 1 {
+			arg = groups[1]
+		}
 		for _, a := range as {
+			var lab []string // the label values the harness's own regexp evaluation gives
+			if isDimAct(a.K) {
+				if len(groups) < 3 {
+					panic("dimensioned action outside a two-label pattern")
+				}
+				lab = []string{groups[1], groups[2]}
+			}
 			switch a.K {
+			case "dinc": // capref, capref, mload, dload, inc
+				evs = append(evs, Event{K: "get", DM: a.M, Labels: lab}, Event{K: "inc", DM: a.M, Labels: lab})
+			case "dts": // ..., dload, timestamp, iset
+				evs = append(evs, Event{K: "get", DM: a.M, Labels: lab}, Event{K: "ts"}, Event{K: "set", DM: a.M, Labels: lab})
+			case "dset": // ..., dload, capref, s2i, iset: the datum exists when s2i fails
+				evs = append(evs, Event{K: "get", DM: a.M, Labels: lab})
+				if n, err := strconv.ParseInt(groups[3], 10, 64); err != nil {
+					evs = append(evs, Event{K: "fail"})
+				} else {
+					evs = append(evs, Event{K: "push", N: n}, Event{K: "set", DM: a.M, Labels: lab})
+				}
+			case "ddel":
+				evs = append(evs, Event{K: "del", DM: a.M, Labels: lab})
+			case "dexp":
+				evs = append(evs, Event{K: "exp", DM: a.M, Labels: lab})
 			case "strp":
 				switch {
 				case p.Caps:
@@ -288,30 +375,26 @@ func (p Prog) Events(line string) []Event {
 	for i, s := range p.Stmts {
 		switch s.Kind {
 		case "uncond":
-			emit(s, s.Acts, 0, "", false)
+			emit(s, s.Acts, 0, nil, false)
 		case "sc":
 			match(2*i, []string{line, line}) // /^(?P<v>.*)$/ matches every line
 			if line == s.Lit {
-				emit(s, s.Acts, 2*i+1, "", false) // short circuit: PI is not evaluated
+				emit(s, s.Acts, 2*i+1, nil, false) // short circuit: PI is not evaluated
 				continue
 			}
 			m := regexp.MustCompile(s.Pattern()).FindStringSubmatch(line)
 			match(2*i+1, m)
 			if m != nil {
-				emit(s, s.Acts, 2*i+1, m[1], true)
+				emit(s, s.Acts, 2*i+1, m, true)
 			}
 		default:
 			m := regexp.MustCompile(s.Pattern()).FindStringSubmatch(line)
 			match(2*i, m)
 			if m == nil {
-				emit(s, s.Else, 2*i, "", false)
+				emit(s, s.Else, 2*i, nil, false)
 				continue
 			}
-			arg := ""
-			if len(m) > 1 {
-				arg = m[1]
-			}
-			emit(s, s.Acts, 2*i, arg, true)
+			emit(s, s.Acts, 2*i, m, true)
 		}
 	}
 	return evs
@@ -334,6 +417,47 @@ func Executed(evs []Event, parses func(layout, value string) bool) (run []Event,
 		}
 	}
 	return run, ""
+}
+
+// ---- slots of the model's flat store ----
+
+// SlotName is one label set of one dimensioned metric.
+type SlotName struct {
+	Metric string   `json:"metric"`
+	Labels []string `json:"labels"`
+}
+
+// SlotBase is the first slot given to a label set; scalar metric i is slot i.
+const SlotBase = 100
+
+// Slots gives every (metric, label tuple) of a case one slot for the whole
+// case: the same tuple of the same metric is the same slot, also after the
+// label set was removed and made again.
+type Slots struct {
+	ids   map[string]int
+	Names []SlotName
+}
+
+func NewSlots() *Slots { return &Slots{ids: map[string]int{}} }
+
+func (s *Slots) ID(metric string, labels []string) int {
+	k := metric + "\x00" + strings.Join(labels, "\x00") // no label holds a NUL
+	if id, ok := s.ids[k]; ok {
+		return id
+	}
+	id := SlotBase + len(s.Names)
+	s.ids[k] = id
+	s.Names = append(s.Names, SlotName{metric, append([]string{}, labels...)})
+	return id
+}
+
+// Assign fills in the slot of every event that names a label set.
+func (s *Slots) Assign(evs []Event) {
+	for i := range evs {
+		if evs[i].DM != "" {
+			evs[i].M = s.ID(evs[i].DM, evs[i].Labels)
+		}
+	}
 }
 
 // ---- the real VM ----
@@ -382,6 +506,9 @@ func (h *VM) Line(s string) int64 {
 func (h *VM) ints() []*datum.Int {
 	var r []*datum.Int
 	for _, m := range h.Obj.Metrics {
+		if len(m.Keys) > 0 {
+			continue
+		}
 		d, err := m.GetDatum()
 		if err != nil {
 			panic(err)
@@ -405,6 +532,90 @@ func (h *VM) Preset(cs []Cell) {
 	for i, d := range h.ints() {
 		d.Value = cs[i].Val
 		d.Time = cs[i].Time
+	}
+}
+
+// LSet is one label set of a dimensioned metric as the metric holds it.
+type LSet struct {
+	Metric string   `json:"metric"`
+	Labels []string `json:"labels"`
+	Val    int64    `json:"val"`
+	Time   int64    `json:"time"`
+	Expiry int64    `json:"expiry,omitempty"` // LabelValue.Expiry, ns
+}
+
+// World is everything the metrics of the program hold.
+type World struct {
+	Cells []Cell `json:"cells"`
+	Sets  []LSet `json:"sets,omitempty"` // per dimensioned metric, in the order of Metric.LabelValues
+}
+
+func (h *VM) dims() []*metrics.Metric {
+	var r []*metrics.Metric
+	for _, m := range h.Obj.Metrics {
+		if len(m.Keys) > 0 {
+			r = append(r, m)
+		}
+	}
+	return r
+}
+
+func (h *VM) dim(name string) *metrics.Metric {
+	for _, m := range h.dims() {
+		if m.Name == name {
+			return m
+		}
+	}
+	panic("no dimensioned metric " + name)
+}
+
+// SnapAll reads the scalar metrics and every label set of the dimensioned ones.
+func (h *VM) SnapAll() World {
+	w := World{Cells: h.Snap()}
+	for _, m := range h.dims() {
+		m.RLock()
+		for _, lv := range m.LabelValues {
+			d := lv.Value.(*datum.Int)
+			w.Sets = append(w.Sets, LSet{Metric: m.Name, Labels: append([]string{}, lv.Labels...),
+				Val: d.Get(), Time: d.Time, Expiry: int64(lv.Expiry)})
+		}
+		m.RUnlock()
+	}
+	return w
+}
+
+// PresetAll makes the metrics of a VM that has processed nothing hold exactly
+// the given contents: scalar values and times, and the label sets (made with
+// Metric.GetDatum in the given order, then value, time and expiry).
+func (h *VM) PresetAll(w World) {
+	h.Preset(w.Cells)
+	for _, m := range h.dims() {
+		if len(m.LabelValues) != 0 {
+			panic("PresetAll on a metric that holds label sets")
+		}
+	}
+	for _, ls := range w.Sets {
+		m := h.dim(ls.Metric)
+		d, err := m.GetDatum(ls.Labels...)
+		if err != nil {
+			panic(err)
+		}
+		di := d.(*datum.Int)
+		di.Value = ls.Val
+		di.Time = ls.Time
+		if ls.Expiry != 0 {
+			if err := m.ExpireDatum(time.Duration(ls.Expiry), ls.Labels...); err != nil {
+				panic(err)
+			}
+		}
+	}
+}
+
+// RemoveSet removes a label set the way Store.Gc does (expiry, limit): with
+// Metric.RemoveDatum, without the VM taking part.
+func (h *VM) RemoveSet(metric string, labels []string) {
+	if err := h.dim(metric).RemoveDatum(labels...); err != nil {
+		panic(err)
 	}
 }
 
@@ -437,6 +648,37 @@ func (b Bracket) Canon(cs []Cell) []Cell {
 		}
 	}
 	return r
+}
+
+// CanonSets is Canon for label sets.
+func (b Bracket) CanonSets(ls []LSet) []LSet {
+	r := make([]LSet, len(ls))
+	for i, l := range ls {
+		c := b.Canon([]Cell{{l.Val, l.Time}})[0]
+		r[i] = l
+		r[i].Val, r[i].Time = c.Val, c.Time
+	}
+	return r
+}
+
+// SameSets: the same label sets in the same order, values and datum times
+// equal by class, expiry equal.
+func (b Bracket) SameSets(x, y []LSet) bool {
+	if len(x) != len(y) {
+		return false
+	}
+	for i := range x {
+		if x[i].Metric != y[i].Metric || len(x[i].Labels) != len(y[i].Labels) || x[i].Expiry != y[i].Expiry ||
+			!b.SameByClass(Cell{x[i].Val, x[i].Time}, Cell{y[i].Val, y[i].Time}) {
+			return false
+		}
+		for k := range x[i].Labels {
+			if x[i].Labels[k] != y[i].Labels[k] {
+				return false
+			}
+		}
+	}
+	return true
 }
 
 // SameByClass: equal, or both wall-clock readings of the case.
@@ -521,9 +763,26 @@ func Table(loc *time.Location, year int, lines [][]Event) []Row {
 
 // ---- cases ----
 
+// SlotCell is a live label set under its slot.
+type SlotCell struct {
+	Slot int   `json:"slot"`
+	Val  int64 `json:"val"`
+	Time int64 `json:"time"`
+}
+
 type Obs struct {
-	Cells []Cell `json:"cells"`
-	Errs  int64  `json:"errs"` // cumulative since the start of the case
+	Cells []Cell     `json:"cells"`
+	Sets  []SlotCell `json:"sets,omitempty"` // the live label sets
+	Errs  int64      `json:"errs"`           // cumulative since the start of the case
+}
+
+// SlotCells names the label sets by slot.
+func (s *Slots) SlotCells(ls []LSet) []SlotCell {
+	var r []SlotCell
+	for _, l := range ls {
+		r = append(r, SlotCell{s.ID(l.Metric, l.Labels), l.Val, l.Time})
+	}
+	return r
 }
 
 type Case struct {
@@ -539,6 +798,12 @@ type Case struct {
 	Events  [][]Event `json:"events"`
 	Table   []Row     `json:"table"`
 	Obs     []Obs     `json:"obs"` // canonical, after each line
+	// dimensioned metrics
+	InitSets []SlotCell   `json:"init_sets,omitempty"` // label sets the run starts with
+	SlotKey  []SlotName   `json:"slot_key,omitempty"`  // slot SlotBase+i is this label set
+	Ext      [][]SlotName `json:"ext,omitempty"`       // Ext[i]: removed from outside the VM before line i
+	ExtSlots [][]int      `json:"ext_slots,omitempty"` // the same, as slots
+	ExtObs   []*Obs       `json:"ext_obs,omitempty"`   // the metrics after that removal (nil when nothing was removed)
 }
 
 func zs(s string) string {
@@ -590,14 +855,24 @@ func coqEvent(e Event) string {
 		return vlib.App("ECapref", vlib.N(uint64(e.Re)), vlib.Nat(e.Group))
 	case "strptop":
 		return vlib.App("EStrptimeTop", coqStr(e.Layout))
+	case "get":
+		return vlib.App("EGet", vlib.N(uint64(e.M)))
+	case "del":
+		return vlib.App("EDel", vlib.N(uint64(e.M)))
+	case "exp":
+		return vlib.App("EExpire", vlib.N(uint64(e.M)))
 	}
 	panic("event " + e.K)
 }
 
-func coqWorld(cs []Cell, errs int64) string {
-	xs := make([]string, len(cs))
+// coqWorld lists the scalar metrics (slot = index), then the live label sets.
+func coqWorld(cs []Cell, sets []SlotCell, errs int64) string {
+	xs := make([]string, 0, len(cs)+len(sets))
 	for i, c := range cs {
-		xs[i] = fmt.Sprintf("(%d, Build_cell %s %s)", i, vlib.Z(c.Val), vlib.Z(c.Time))
+		xs = append(xs, fmt.Sprintf("(%d, Build_cell %s %s)", i, vlib.Z(c.Val), vlib.Z(c.Time)))
+	}
+	for _, c := range sets {
+		xs = append(xs, fmt.Sprintf("(%d, Build_cell %s %s)", c.Slot, vlib.Z(c.Val), vlib.Z(c.Time)))
 	}
 	return fmt.Sprintf("(Build_world %s %d)", vlib.List(xs), errs)
 }
@@ -613,20 +888,27 @@ func (c Case) Coq(id uint64) string {
 		}
 		rows[i] = fmt.Sprintf("(%s, %s, %s)", coqStr(r.Layout), coqStr(r.Value), res)
 	}
-	ls := make([]string, len(c.Events))
+	var items, obs []string
 	for i, evs := range c.Events {
+		if i < len(c.ExtSlots) && len(c.ExtSlots[i]) > 0 {
+			ms := make([]string, len(c.ExtSlots[i]))
+			for j, m := range c.ExtSlots[i] {
+				ms[j] = vlib.N(uint64(m))
+			}
+			items = append(items, vlib.App("TExt", vlib.List(ms)))
+			o := c.ExtObs[i]
+			obs = append(obs, coqWorld(o.Cells, o.Sets, o.Errs))
+		}
 		es := make([]string, len(evs))
 		for j, e := range evs {
 			es[j] = coqEvent(e)
 		}
-		ls[i] = fmt.Sprintf("(Build_line %s %s %s)",
-			vlib.Z(c.NowS*1e9), vlib.Z(int64(c.Year)), vlib.List(es))
+		items = append(items, fmt.Sprintf("(TLine (Build_line %s %s %s))",
+			vlib.Z(c.NowS*1e9), vlib.Z(int64(c.Year)), vlib.List(es)))
+		o := c.Obs[i]
+		obs = append(obs, coqWorld(o.Cells, o.Sets, o.Errs))
 	}
-	obs := make([]string, len(c.Obs))
-	for i, o := range c.Obs {
-		obs[i] = coqWorld(o.Cells, o.Errs)
-	}
-	return vlib.App("TRun", vlib.N(id), cfg, vlib.List(rows), coqWorld(c.Init, 0), vlib.List(ls), vlib.List(obs))
+	return vlib.App("TRun", vlib.N(id), cfg, vlib.List(rows), coqWorld(c.Init, c.InitSets, 0), vlib.List(items), vlib.List(obs))
 }
 
 // ---- generator ----
@@ -638,6 +920,22 @@ type Weights struct {
 	TailElse                                       int // percent: the program ends in `else { ...; stop | failing strptime }`
 	TailUncond                                     int // percent: ... or in a bare top-level stop / failing strptime
 	HeadUncond                                     int // percent: the program starts with a top-level counter++
+	Dim                                            int // percent: the program also has dimensioned metrics (0: never, no random draw)
+}
+
+// LabelPairs: families of label tuples for a metric with two keys.  The tuples
+// of a family coincide when the values are joined naively: with "," (GET,POST
+// and / against GET and POST,/), with "-" (a-b and c against a and b-c), with
+// "-" when only one of "-" and "\\" is escaped, or with nothing in between
+// (ab and "" against a and b); empty values included.
+var LabelPairs = [][][2]string{
+	{{"GET,POST", "/"}, {"GET", "POST,/"}, {"GET,POST,/", ""}},
+	{{"a-b", "c"}, {"a", "b-c"}, {"a-b-c", ""}},
+	{{"a\\", "b"}, {"a", "\\b"}, {"a\\-", "b"}, {"a\\", "-b"}},
+	{{"ab", ""}, {"a", "b"}, {"", "ab"}},
+	{{"", ""}, {",", ""}, {"", ","}, {"-", ""}, {"", "-"}},
+	{{"x,", "y"}, {"x", ",y"}, {"x", "y"}, {"y", "x"}},
+	{{"a\\-b", "c"}, {"a\\", "b-c"}, {"a", "-b-c"}},
 }
 
 var gauges = []string{"g0", "g1", "g2", "g3"}
@@ -740,6 +1038,9 @@ func GenProg(r *vlib.Rand, w Weights) Prog {
 		}
 		p.Stmts = append(p.Stmts, s)
 	}
+	if w.Dim > 0 && r.Chance(w.Dim) {
+		genDim(r, &p)
+	}
 	// a program must declare at least one metric and read the clock somewhere
 	last := Stmt{Tag: vlib.Pick(r, tags), Arg: ArgNone,
 		Acts: []Action{{K: "gts", M: vlib.Pick(r, gauges)}, {K: "inc", M: vlib.Pick(r, counters)}}}
@@ -778,12 +1079,139 @@ func GenProg(r *vlib.Rand, w Weights) Prog {
 	return p
 }
 
+// genDim inserts statements over one or two dimensioned metrics at random
+// places of the program: every metric is fed by at least one statement that
+// creates label sets; the others increment, set, delete or expire label sets
+// named by the two captured label values, mixed with settime / strptime /
+// scalar writes so that datum times and the line's end vary.
+func genDim(r *vlib.Rand, p *Prog) {
+	var ms []string
+	switch x := r.Intn(10); {
+	case x < 4:
+		ms = []string{"d0"}
+	case x < 6:
+		ms = []string{"e0"}
+	case x < 8:
+		ms = []string{"d0", "e0"}
+	default:
+		ms = []string{"d0", "d1"}
+	}
+	create := func(m string, arg int) Action {
+		switch {
+		case m[0] == 'd':
+			return Action{K: "dinc", M: m}
+		case arg == ArgDim3:
+			return Action{K: "dset", M: m}
+		}
+		return Action{K: "dts", M: m}
+	}
+	var out []Stmt
+	for _, m := range ms {
+		s := Stmt{Tag: "D", Arg: ArgDim2}
+		if m[0] == 'e' && r.Bool() {
+			s = Stmt{Tag: "E", Arg: ArgDim3}
+		}
+		if r.Chance(30) {
+			s.Acts = append(s.Acts, Action{K: "settc", N: vlib.Pick(r, settConsts)})
+		}
+		s.Acts = append(s.Acts, create(m, s.Arg))
+		out = append(out, s)
+	}
+	extra := 1 + r.Intn(3)
+	for i := 0; i < extra; i++ {
+		s := Stmt{Tag: vlib.Pick(r, []string{"D", "X", "X"}), Arg: ArgDim2}
+		if r.Chance(20) {
+			s = Stmt{Tag: "E", Arg: ArgDim3}
+		}
+		k := 1 + r.Intn(3)
+		for j := 0; j < k; j++ {
+			m := vlib.Pick(r, ms)
+			switch x := r.Intn(100); {
+			case x < 30:
+				s.Acts = append(s.Acts, create(m, s.Arg))
+			case x < 60:
+				s.Acts = append(s.Acts, Action{K: "ddel", M: m})
+			case x < 72:
+				s.Acts = append(s.Acts, Action{K: "dexp", M: m})
+			case x < 80:
+				s.Acts = append(s.Acts, Action{K: "settc", N: vlib.Pick(r, settConsts)})
+			case x < 87:
+				s.Acts = append(s.Acts, Action{K: "inc", M: vlib.Pick(r, counters)})
+			case x < 93:
+				li := r.Intn(len(Layouts))
+				v := vlib.Pick(r, GoodValues[li])
+				if r.Chance(30) {
+					v = vlib.Pick(r, BadValues)
+				}
+				s.Acts = append(s.Acts, Action{K: "strpc", Layout: Layouts[li], Const: v})
+			case x < 97:
+				s.Acts = append(s.Acts, Action{K: "gts", M: vlib.Pick(r, gauges)})
+			default:
+				s.Acts = append(s.Acts, Action{K: "stop"})
+			}
+		}
+		out = append(out, s)
+	}
+	for _, s := range out {
+		at := r.Intn(len(p.Stmts) + 1)
+		p.Stmts = append(p.Stmts[:at], append([]Stmt{s}, p.Stmts[at:]...)...)
+	}
+}
+
+// HasDim: the program has a statement over a dimensioned metric.
+func (p Prog) HasDim() bool {
+	for _, s := range p.Stmts {
+		if s.Arg == ArgDim2 || s.Arg == ArgDim3 {
+			return true
+		}
+	}
+	return false
+}
+
+// dimLines: lines for the two-label statements of the program, over a few
+// label tuples that coincide under naive joining.
+func dimLines(r *vlib.Rand, p Prog) []string {
+	var tuples [][2]string
+	fam := LabelPairs[r.Intn(len(LabelPairs))]
+	tuples = append(tuples, fam...)
+	if r.Chance(40) {
+		tuples = append(tuples, vlib.Pick(r, LabelPairs)...)
+	}
+	if len(tuples) > 5 {
+		tuples = tuples[:5]
+	}
+	seen := map[string]bool{}
+	var pool []string
+	for _, s := range p.Stmts {
+		if s.Arg != ArgDim2 && s.Arg != ArgDim3 {
+			continue
+		}
+		key := fmt.Sprint(s.Tag, s.Arg)
+		if seen[key] {
+			continue
+		}
+		seen[key] = true
+		for _, t := range tuples {
+			l := s.Tag + " " + t[0] + " " + t[1]
+			if s.Arg == ArgDim3 {
+				pay := strconv.Itoa(r.Intn(7) - 2)
+				if r.Chance(20) {
+					pay = vlib.Pick(r, []string{"x", "99999999999999999999", "-"})
+				}
+				l += " " + pay
+			}
+			pool = append(pool, l)
+		}
+	}
+	return pool
+}
+
 // LinePool builds lines for the program: per statement, payloads that parse
 // under its layouts, payloads that do not, payloads of other layouts.
 func LinePool(r *vlib.Rand, p Prog) []string {
 	var pool []string
 	for _, s := range p.Stmts {
-		if s.Kind == "uncond" {
+		if s.Kind == "uncond" || s.Arg == ArgDim2 || s.Arg == ArgDim3 {
 			continue
 		}
 		if s.Kind == "sc" {
@@ -843,6 +1271,14 @@ func LinePool(r *vlib.Rand, p Prog) []string {
 		}
 	}
 	pool = append(pool, "Z nothing matches")
+	if p.HasDim() {
+		// as many lines for the label statements as for all the others
+		d := dimLines(r, p)
+		for len(d) < len(pool) {
+			d = append(d, d...)
+		}
+		pool = append(pool, d...)
+	}
 	return pool
 }
 
@@ -954,10 +1390,16 @@ func Expect(loc *time.Location, useYear bool, year int, evs []Event, before []Ce
 		case "set":
 			x := stack[len(stack)-1]
 			stack = stack[:len(stack)-1]
+			if e.DM != "" {
+				continue // label sets are not part of this oracle
+			}
 			c := &after[e.M]
 			c.Val, c.ValNow, c.ValAny = x.v, x.now, x.any
 			stamp(c)
 		case "inc":
+			if e.DM != "" {
+				continue
+			}
 			c := &after[e.M]
 			c.Val++ // counters of the generated programs stay far from overflow
 			stamp(c)
